@@ -1,7 +1,7 @@
 ------------------------- MODULE Gen_ClusterRoutes -------------------------
 (* Case generator for C28: all 6 x 6 setting pairings x 5 pool encapsulation modes for IPv4 pools,
    and the three encapsulation modes an IPv6 pool can have (VXLAN always / cross-subnet, none).     *)
-EXTENDS ClusterRoutes, TLC, Json
+EXTENDS ClusterRoutes, Sequences, TLC, Json
 
 VARIABLE ipv
 gvars == <<fv, bv, encap, ipv>>
